@@ -147,6 +147,17 @@ def correspondence(ctx):
         if e != g:
             ctx.mismatch(q.split()[0], {"request": q, "string": s}, e, g)
     ctx.traces += len(reqs)
+    # the translated scanners against the implementation on every rendered string and its parts
+    items, res = [], []
+    for c in cases:
+        if c["sep"] >= 128:
+            continue
+        s = c["raw"].decode("latin-1")
+        items.append(("isoparse", None, True, "str", s)); res.append(ic.impl_parse(None, s, "str"))
+        items.append(("isoparse", chr(c["sep"]), True, "str", s)); res.append(ic.impl_parse(chr(c["sep"]), s, "str"))
+        for (entry, part, _) in sub_entries(c):
+            items.append((entry, None, True, "str", part)); res.append(None)
+    ic.validate_translation(ctx, items, res)
 
 
 def oracle(ctx):
